@@ -1,9 +1,8 @@
-import Driver.Util
-open Lean
+import Driver.Store
 
 namespace Driver.C04
 
-/-- stub: replaced when the model of C04 is built -/
-def main : IO Unit := pureLoop fun _ => bad "C04: model driver not built yet"
+/-- C04 is decided on the structural (HDF5 graph) model: same driver for C02 C03 C04 C05 C12 C20 -/
+def main : IO Unit := Driver.Store.main
 
 end Driver.C04
